@@ -117,7 +117,7 @@ type machine struct {
 	feeds []*feedM
 	// statistics
 	nBatches, nValues, nNegative, nTrim, nBelowThr, nAutoPause, nStranger, nNoField int
-	nAged, nAgedValues, nPathFeeds, nPathValues                                     int
+	nAged, nAgedValues, nPathFeeds, nPathValues, nAggRefused                        int
 	// restart statistics
 	nRestart, nRestartRunning, nRestartOpenBatch, nRestartOneValue, nRestartCollapse     int
 	nRestartManyValues                                                                   int
@@ -229,7 +229,7 @@ func (m *machine) Next(t *rapid.T) op {
 		sort.Ints(perm)
 		timeout := int64(rapid.IntRange(1, 4).Draw(t, "timeout"))
 		creator := rapid.SampledFrom([]int{3, 3, 3, 4, 0}).Draw(t, "creator") // 4 is poor
-		return op{Kind: "create", Who: creator, Agg: rapid.SampledFrom([]string{"max", "min", "avg"}).Draw(t, "agg"), Hist: uint64(rapid.IntRange(1, 5).Draw(t, "hist")),
+		return op{Kind: "create", Who: creator, Agg: rapid.SampledFrom([]string{"max", "min", "avg", "max", "min", "avg", "MAX", "Min", "aVg"}).Draw(t, "agg"), Hist: uint64(rapid.IntRange(1, 5).Draw(t, "hist")),
 			Providers: perm, Thr: uint32(rapid.IntRange(1, n).Draw(t, "thr")), Timeout: timeout, Freq: uint64(timeout) + uint64(rapid.IntRange(0, 3).Draw(t, "freq")),
 			// one feed in four has been running for a long time: its request context has already issued some 250 batches
 			// (no generated history is that long; the batch counter is part of the keys the feed values are stored under)
@@ -344,6 +344,18 @@ func (m *machine) Apply(o op) error {
 		r := c.Deliver(&oracletypes.MsgCreateFeed{FeedName: name, LatestHistory: o.Hist, Description: "d", Creator: m.addr(o.Who), ServiceName: svcName,
 			Providers: m.provAddrs(o.Providers), Input: input, Timeout: o.Timeout, ServiceFeeCap: sdk.NewCoins(sdk.NewInt64Coin("stake", 200)),
 			RepeatedFrequency: o.Freq, AggregateFunc: o.Agg, ValueJsonPath: valuePath(o.Path), ResponseThreshold: o.Thr})
+		if o.Agg != strings.ToLower(o.Agg) {
+			// the name of the aggregate written in another letter case: refusing it is fine; a feed that is accepted under
+			// such a name has "the configured aggregate" all the same and is held to every clause
+			if r.Outcome != chain.OK {
+				m.nAggRefused++
+				if r.Outcome == chain.Panicked {
+					return pbt.Failf("C17/create-panicked", "feed creation panicked: %v (%+v)", r, o)
+				}
+				return nil
+			}
+			o.Agg = strings.ToLower(o.Agg)
+		}
 		if r.Outcome != chain.OK {
 			return pbt.Failf("C17/create-failed", "valid feed creation failed: %v (%+v)", r, o)
 		}
@@ -881,6 +893,7 @@ func (m *machine) Classify() (bool, []string) {
 	add(m.nNegative > 0, "all-negative-set")
 	add(m.nTrim > 0, "history-trim")
 	add(m.nAgedValues >= 2, "aged-feed-stored-values-across-a-counter-byte-boundary")
+	add(m.nAggRefused > 0, "aggregate-name-in-other-letter-case-refused")
 	add(m.nPathValues > 0, "value-addressed-by-a-path")
 	add(m.c.Time().Year() > 2262 && m.nValues > 0, "block-time-beyond-2262")
 	add(m.nBelowThr > 0, "below-threshold-batch")
